@@ -1,7 +1,6 @@
 #!/bin/sh
-# Offline build of the simulator (both profiles) against /repo's current working tree.
+# Offline build of the simulator against /repo's current working tree.
 set -e
 cd "$(dirname "$0")/sim"
 export CARGO_NET_OFFLINE=true
 cargo build --release --offline 2>&1 | tail -3
-cargo build --profile checked --offline 2>&1 | tail -3
